@@ -281,8 +281,8 @@ func nonNilFact(facts []fact, ptr ssa.Value) bool {
 
 // panicExceptions: reviewed constructs (one named construct + reason each).
 var panicExceptions = map[string]string{
-	"index mdnsEntries in (*hub.Hub).ReportMdnsEntries$1":                                      "indices are supplied by sort.Slice within [0,len)",
-	"type-assert *tls.Conn in (*hub.Hub).connectFoundService":                                  "value returned by gorilla's wss dial is a *tls.Conn; not peer data",
+	"index mdnsEntries in (*hub.Hub).ReportMdnsEntries$1":     "indices are supplied by sort.Slice within [0,len)",
+	"type-assert *tls.Conn in (*hub.Hub).connectFoundService": "value returned by gorilla's wss dial is a *tls.Conn; not peer data",
 }
 
 func checkC08(p *core.Program, r *core.Report) {
@@ -908,6 +908,15 @@ func boundedByLen(v ssa.Value, g *ssa.Global, n int64, depth int) bool {
 	}
 	if lenMinusOne(v, g) {
 		return true
+	}
+	// min(a, b, ...): bounded as soon as one operand is
+	if c, ok := v.(*ssa.Call); ok && isBuiltin(c, "min") {
+		for _, a := range c.Call.Args {
+			if boundedByLen(a, g, n, depth+1) {
+				return true
+			}
+		}
+		return false
 	}
 	phi, ok := v.(*ssa.Phi)
 	if !ok {
